@@ -43,7 +43,7 @@ type letterRec struct {
 
 var hvRe = regexp.MustCompile(`^hv([0-9]{1,2})$`)
 var statusRe = regexp.MustCompile(`^s([0-9]{3})$`)
-var codeRe = regexp.MustCompile(`^c([0-9]{1,2})$`)
+var codeRe = regexp.MustCompile(`^c([0-9]{1,10})$`)
 
 func letterOf(s string) letterRec {
 	if m := statusRe.FindStringSubmatch(s); m != nil {
@@ -155,12 +155,23 @@ type respRun struct {
 var httpStatus = []string{"s200", "s201", "s204", "s299", "s301", "s304", "s400", "s404", "s418", "s429", "s500", "s503", "s599"}
 var httpNet = []string{"badstatus", "badheader", "hugeheader", "closebefore", "closeduring"}
 var httpBody = []string{"trunc", "badchunk"}
+var httpList = []string{"lst0", "lst1", "lststr", "lstnull", "lstobj"}
 var httpOdd = []string{"early", "empty", "big", "notjson", "jsonarr", "nothtml", "shorthdr", "nohdr"}
 var allPosts = []string{"none", "jsonpath", "header_substr", "xpath", "assert", "all"}
+
+// response-derived lists: a captures `items: $.list`, b's preprocessor indexes it (spec/Responses.tla IdxPosts)
+var idxPosts = map[string]string{"idx_last": "last", "idx_next": "next", "idx_rand": "rand", "idx_0": "0", "idx_neg": "-1", "idx_big": "7"}
+var idxPostNames = []string{"idx_last", "idx_next", "idx_rand", "idx_0", "idx_neg", "idx_big"}
+
+// gRPC status codes outside the canonical range (the uint32 of the grpc-status trailer is the peer's)
+var grpcOddCodes = []string{"c17", "c42", "c2147483647"}
 
 func postsYAML(p string) string {
 	has := func(q string) bool { return p == q || p == "all" }
 	var b strings.Builder
+	if _, ok := idxPosts[p]; ok {
+		b.WriteString("      - type: var/jsonpath\n        mapping:\n          items: $.list\n")
+	}
 	if has("jsonpath") {
 		b.WriteString("      - type: var/jsonpath\n        mapping:\n          tok: $.tok\n          first: $.list[0]\n")
 	}
@@ -189,6 +200,10 @@ func httpScenarioPayload(letters []string, posts string, variant string) string 
 			method = "    method: POST\n    body: 'body=body'\n"
 		}
 		fmt.Fprintf(&b, "  - name: a%d\n%s    uri: /a\n    headers:\n      X-Letter: %s\n%s", i, method, l, postsYAML(posts))
+		if index, ok := idxPosts[posts]; ok {
+			fmt.Fprintf(&b, "  - name: b%d\n    method: POST\n    uri: /b\n    headers:\n      X-Letter: %s\n      X-Val: 'v{{.request.b%d.preprocessor.row}}'\n    body: 'x=1'\n    preprocessor:\n      mapping:\n        row: request.a%d.postprocessor.items[%s]\n", i, l, i, i, index)
+			continue
+		}
 		fmt.Fprintf(&b, "  - name: b%d\n    method: POST\n    uri: /b\n    headers:\n      X-Letter: %s\n      X-Val: 'v{{.request.a%d.postprocessor.tok}}'\n    body: 'x={{.request.a%d.postprocessor.low}}'\n", i, l, i, i)
 	}
 	b.WriteString("scenarios:\n")
@@ -334,6 +349,19 @@ func planAll(mixes int, rnd *rand.Rand, h2 bool) []respPlan {
 			plans = append(plans, respPlan{gun: "http/scenario", posts: p, letters: repeat(l, shots)})
 		}
 	}
+	// response-derived lists indexed by a later step's preprocessor: every index form x (empty, one element, not a list,
+	// two elements, no JSON at all, no response at all)
+	for _, l := range httpList {
+		plans = append(plans, respPlan{gun: "http/scenario", posts: "all", letters: repeat(l, shots)})
+	}
+	for _, p := range idxPostNames {
+		for _, l := range []string{"lst0", "lst1", "lststr", "lstnull", "lstobj", "s200", "notjson", "closebefore"} {
+			if (l == "lstnull" || l == "lstobj" || l == "notjson" || l == "closebefore") && p != "idx_last" && p != "idx_next" {
+				continue
+			}
+			plans = append(plans, respPlan{gun: "http/scenario", posts: p, letters: repeat(l, shots)})
+		}
+	}
 	for _, g := range []string{"http", "http/scenario"} {
 		plans = append(plans, respPlan{gun: g, posts: map[string]string{"http": "none", "http/scenario": "all"}[g], letters: repeat("refused", shots), refused: true})
 		plans = append(plans, respPlan{gun: g, posts: map[string]string{"http": "none", "http/scenario": "all"}[g], letters: repeat("timeout", shots), timeout: true})
@@ -380,6 +408,10 @@ func planAll(mixes int, rnd *rand.Rand, h2 bool) []respPlan {
 		plans = append(plans, respPlan{gun: "grpc", posts: "none", letters: repeat(fmt.Sprintf("c%d", c), shots)})
 		plans = append(plans, respPlan{gun: "grpc/scenario", posts: "none", letters: repeat(fmt.Sprintf("c%d", c), shots)})
 	}
+	for _, l := range grpcOddCodes {
+		plans = append(plans, respPlan{gun: "grpc", posts: "none", letters: repeat(l, shots)})
+		plans = append(plans, respPlan{gun: "grpc/scenario", posts: "none", letters: repeat(l, shots)})
+	}
 	for _, l := range []string{"gbig", "gtoobig", "gslow", "gkill"} {
 		plans = append(plans, respPlan{gun: "grpc", posts: "none", letters: repeat(l, shots), timeout: l == "gslow"})
 		plans = append(plans, respPlan{gun: "grpc/scenario", posts: "none", letters: repeat(l, shots), timeout: l == "gslow"})
@@ -422,8 +454,9 @@ func planAll(mixes int, rnd *rand.Rand, h2 bool) []respPlan {
 		}
 	}
 	// seeded random mixtures (letters whose effect is confined to their own request)
-	mixHTTP := append(append(append(append([]string{}, httpStatus...), httpNet...), httpBody...), httpOdd...)
-	mixGrpc := []string{"gbig", "gtoobig"}
+	mixHTTP := append(append(append(append(append([]string{}, httpStatus...), httpNet...), httpBody...), httpOdd...), httpList...)
+	mixGrpc := append([]string{"gbig", "gtoobig"}, grpcOddCodes...)
+	mixPosts := append(append([]string{}, allPosts...), idxPostNames...)
 	for c := 0; c <= 16; c++ {
 		mixGrpc = append(mixGrpc, fmt.Sprintf("c%d", c))
 	}
@@ -439,7 +472,7 @@ func planAll(mixes int, rnd *rand.Rand, h2 bool) []respPlan {
 		if m%3 == 0 {
 			plans = append(plans, respPlan{gun: "connect", posts: "none", letters: pick(mixHTTP), mix: true})
 		}
-		plans = append(plans, respPlan{gun: "http/scenario", posts: allPosts[rnd.Intn(len(allPosts))], letters: pick(mixHTTP), mix: true, debug: m%3 == 2})
+		plans = append(plans, respPlan{gun: "http/scenario", posts: mixPosts[rnd.Intn(len(mixPosts))], letters: pick(mixHTTP), mix: true, debug: m%3 == 2})
 		if m%2 == 0 {
 			plans = append(plans, respPlan{gun: "grpc", posts: "none", letters: pick(mixGrpc), mix: true})
 			plans = append(plans, respPlan{gun: "grpc/scenario", posts: "none", letters: pick(mixGrpc), mix: true})
